@@ -671,9 +671,12 @@ def rule_conv(ctx):
         # flattens a & (b & c) into [a, b, c], which the reader's left fold rebuilds as (a & b) & c (seed C11-m9)
         if rvc is None and len(rets) == 1 and isinstance(rets[0].value, ast.Dict) and len(rets[0].value.values) == 1 and isinstance(rets[0].value.values[0], ast.Name):
             lst = rets[0].value.values[0].id
+            def _single(e):   # `[x]`: one entry, the same as append(x)
+                return isinstance(e, (ast.List, ast.Tuple)) and len(e.elts) == 1 and not isinstance(e.elts[0], ast.Starred)
             splices = [n for n in ast.walk(comb.node)
-                       if (isinstance(n, ast.Call) and isinstance(n.func, ast.Attribute) and isinstance(n.func.value, ast.Name) and n.func.value.id == lst and n.func.attr in ("extend", "insert", "__iadd__"))
-                       or (isinstance(n, ast.AugAssign) and isinstance(n.target, ast.Name) and n.target.id == lst)]
+                       if (isinstance(n, ast.Call) and isinstance(n.func, ast.Attribute) and isinstance(n.func.value, ast.Name) and n.func.value.id == lst
+                           and n.func.attr in ("extend", "__iadd__") and not (len(n.args) == 1 and _single(n.args[0])))
+                       or (isinstance(n, ast.AugAssign) and isinstance(n.target, ast.Name) and n.target.id == lst and not _single(n.value))]
             inst["operand list"] = {lst: "accumulated in a loop", "splices": [norm(s) for s in splices]}
             if splices:
                 r.fail(Finding("R-CONV", "R-CONV|conditions.ConditionBinaryOp.to_json_like|operands", f"{comb.file}:{splices[0].lineno}",
